@@ -177,12 +177,13 @@ def py_call(x: int) -> int:
 
 @guppy
 def rec_nested(n: int) -> int:
-    def fact(k: int) -> int:
+    # the nested function has the NAME of the module-level function `plain`
+    def plain(k: int) -> int:
         if k <= 1:
             return 1
-        return k * fact(k - 1)
+        return k * plain(k - 1)
 
-    return fact(n)
+    return plain(n)
 
 
 @guppy
@@ -249,7 +250,7 @@ LATE2_DEFS = ("calls_bad_sig", "ct_interrupt", "qfun")
 # second quick phase / third thorough phase: a NON-capturing recursive nested function (registered in
 # the enclosing frame's locals by check_nested_func_def) and a function whose exit block is
 # unreachable (compile_cfg's return-variable guard sees an exit block without predecessors)
-LATE_DEFS = ("rec_nested", "spin", "spin_caller")
+LATE_DEFS = ("rec_nested", "spin", "spin_caller", "plain")
 QUICK_DEFS = 9
 # definitions that are in the module (and reachable as dependencies) but are not
 # operated on directly, to keep the history tree affordable: Pt (through use_struct),
